@@ -557,6 +557,10 @@ class ConnectModel(Unit):
                     note='fresh empty queue, socket and file object, connected = True, and plain framing whatever the earlier '
                          'connection on this object had negotiated (the handshake of the new login goes out uncompressed)')
             E.check('connect.prefers-ipv4', ('socket', socket_mod.AF_INET) in log)
+            qs = [v for v in d.values() if isinstance(v, deque)]
+            E.check('connect.queue-unbounded', len(qs) >= 1 and all(q.maxlen is None for q in qs),
+                    note='the outgoing queue is an unbounded FIFO: append never discards a queued packet (a deque with maxlen '
+                         'silently drops the oldest entry when full)')
         else:
             E.check('connect.failure-propagates', isinstance(outcome, OSError), note='%r' % (outcome,))
             E.check('connect.failure-not-connected', d['connected'] is False)
@@ -573,7 +577,7 @@ class ConnectModel(Unit):
         return None
 
     def replay(self, model, label):
-        if label == 'connect.success':
+        if label in ('connect.success', 'connect.queue-unbounded'):
             return replay_connect_plain()
         rp = replay_lifecycle(label)
         return rp if rp['confirmed'] else replay_stale_queue()
@@ -604,6 +608,14 @@ def replay_connect_plain():
         elif c.options.compression_enabled is not False or c.options.compression_threshold != -1:
             bad = ('the new connection starts with compression_enabled=%r, threshold=%r: its handshake and login start go out in '
                    'compressed framing, which no server expects' % (c.options.compression_enabled, c.options.compression_threshold))
+        else:
+            for name, q in vars(c).items():
+                if isinstance(q, deque) and q.maxlen is not None:
+                    for i in range(q.maxlen + 5):
+                        q.append(i)
+                    bad = ('the outgoing queue %s holds at most %d packets: after %d appends the oldest queued entry is %r, entries '
+                           '0..%d were discarded without being written' % (name, q.maxlen, q.maxlen + 5, q[0], q[0] - 1))
+                    q.clear()
         try:
             c.disconnect(immediate=True)
         except Exception:       # noqa
